@@ -173,6 +173,7 @@ type c04Req struct {
 	Known   bool     // every model row must be stored when the request is accepted
 	Rows    []c04Row `json:",omitempty"`
 	NRows   int      // rows an acceptance stores when only the count is known (-1 unknown)
+	Opaque  bool     // bytes were mutated / raw: the request's structure is not known
 	// outcome (filled while running; kept for the replay file)
 	Status int   `json:",omitempty"`
 	Delta  int64 `json:",omitempty"`
@@ -1147,7 +1148,7 @@ var c04Endpoints = []string{
 
 func (g *c04Gen) rawRequest() *c04Req {
 	t := g.t
-	r := &c04Req{Kind: "raw", Method: "POST", Headers: map[string]string{}, NRows: -1}
+	r := &c04Req{Kind: "raw", Method: "POST", Headers: map[string]string{}, NRows: -1, Opaque: true}
 	r.Path = rapid.SampledFrom(c04Endpoints).Draw(t, "endpoint")
 	prefix := rapid.SampledFrom([][]byte{nil, {0x1f, 0x8b, 8, 0}, {0x28, 0xb5, 0x2f, 0xfd}, {0x82, 0xa1, 'm'}, {0x91, 0x82}, {0xdd, 0xff, 0xff, 0xff, 0xff},
 		{0x81, 0xa7, 'c', 'o', 'l', 'u', 'm', 'n', 's', 0xdf, 0x7f, 0xff, 0xff, 0xff}, []byte("cpu v=1i\n"), []byte("1 a\nb\n"), []byte("time,v\n"), []byte("PAR1")}).Draw(t, "prefix")
@@ -1186,7 +1187,7 @@ func (g *c04Gen) request() *c04Req {
 	switch rapid.IntRange(0, 9).Draw(t, "mode") {
 	case 0, 1: // byte-level mutation of the structure-aware payload
 		r.Body = g.mutate(r.Body)
-		r.Known, r.NRows = false, -1
+		r.Known, r.NRows, r.Opaque = false, -1, true
 		r.Desc += " +mutated"
 	default:
 	}
@@ -1346,6 +1347,16 @@ func c04RunSeq(s *c04Seq) *c04Failure {
 		verifkit.Class(fmt.Sprintf("status-%dxx", resp.Status/100))
 		accepted := resp.Status >= 200 && resp.Status < 300
 		if !accepted {
+			// Open finding C04-partial-store-on-reject: structure-aware requests avoid
+			// the shape by construction, but a byte mutation can split one measurement
+			// into two or poison one of several; for those (write-phase 5xx only) the
+			// partial store is counted as excluded instead of reported again.
+			if r.Delta != 0 && resp.Status >= 500 && r.Opaque && verifkit.Excluded(kfC04PartialStore) &&
+				(strings.HasPrefix(r.Kind, "lp") || strings.HasPrefix(r.Kind, "msgpack") || r.Kind == "raw") {
+				verifkit.CountExcluded(kfC04PartialStore)
+				acceptedTotal += r.Delta
+				continue
+			}
 			if r.Delta != 0 {
 				return &c04Failure{"rejected-request-stored-rows", fmt.Sprintf("request #%d (%s) answered %d %s but appended %d rows to the ingest buffers",
 					i, r.Desc, resp.Status, strings.TrimSpace(resp.Body), r.Delta)}
